@@ -2,6 +2,7 @@ import LiquidModel.Drv.Codec
 import LiquidModel.Drv.Render
 import LiquidModel.Drv.FilterOp
 import LiquidModel.Drv.C05
+import LiquidModel.Drv.C06
 import LiquidModel.Drv.C18
 namespace Liquid.Drv
 
@@ -10,6 +11,7 @@ def dispatch (op : String) : Option (List String → String) :=
   match op with
   | "render" => some (renderOp baseFilters)
   | "c05" => some c05Op
+  | "c06" => some c06Op
   | "stack" => some stackOp
   | _ => none
 
